@@ -68,6 +68,14 @@ class Rot:
             a = J(a).deg2rad() if degrees else J(a)
             e = _elem(ax.lower(), a)
             m = np.dot(e, m) if ax.islower() else np.dot(m, e)      # extrinsic: pre-multiply
+        if seq == 'xyz':
+            # as_euler('xyz') of exactly this matrix returns these angles (contract
+            # as_euler(from_euler(a)) = a for |pitch| < 90 deg and angles in the principal range,
+            # which the harness domains assume)
+            for i in range(3):
+                for j in range(3):
+                    m[i, j] = J(m[i, j])
+            S.C.memo[('euler',) + tuple(id(x) for x in m.flat)] = ([J(a) for a in ang], bool(degrees), m)
         return Rot(m)
 
     @staticmethod
@@ -118,6 +126,17 @@ class Rot:
 
 
 def _as_euler_xyz(M, degrees):
+    tag = S.C.memo.get(('euler',) + tuple(id(x) for x in np.asarray(M, dtype=object).flat))
+    if tag is not None:
+        angs, deg_in, _keep = tag
+        out = []
+        for a in angs:
+            if deg_in and not degrees:
+                a = a.deg2rad()
+            elif degrees and not deg_in:
+                a = a.rad2deg()
+            out.append(a)
+        return O(out)
     r = S.atan2(M[2, 1], M[2, 2])
     p = S.atan2(-J(M[2, 0]), (J(M[2, 1]) * J(M[2, 1]) + J(M[2, 2]) * J(M[2, 2])).sqrt())
     h = S.atan2(M[1, 0], M[0, 0])
